@@ -35,6 +35,22 @@ def gen_case(rng, tier, idx):
             irr["kwargs"]["SMT"] = [rng.choice([60, 80, lo]), lo, lo, lo]
             irr["kwargs"]["MaxIrr"] = rng.choice([6, 10, 15, 25])
             irr["kwargs"].pop("MaxIrrSeason", None)
+        if rng.random() < 0.5:
+            # net irrigation with a low target pins the depletion between the expansion and the stomatal threshold for weeks
+            case["spec"]["irr"] = {"method": 4, "kwargs": {"NetIrrSMT": rng.choice([28, 32, 36, 40, 45])}, "schedule": None}
+            case["controller"] = None
+        # a short cold or hot spell somewhere in the flowering period: pollination falls a little short of complete
+        from ..gen import season_spans
+        from ..spec import parse_date
+        from ..domain import CROP_INFO
+        w = case["spec"]["weather"]
+        off = (parse_date(case["spec"]["start"]) - parse_date(w["start"])).days
+        mat = CROP_INFO[case["spec"]["crop"]["name"]]["MaturityCD"]
+        for a, b in season_spans(case["spec"]):
+            if rng.random() < 0.7:
+                d = a + int(mat * rng.uniform(0.3, 0.6))
+                w["events"].append({"kind": rng.choice(["cold_snap", "cold_snap", "heat_wave"]), "day": off + d, "len": rng.choice([2, 4, 7, 12, 20, 35]),
+                                    "mag": round(rng.uniform(8, 16), 1)})
         return case
     case = std_case(rng, PROFILE)
     if idx % 4 == 1:
